@@ -852,18 +852,33 @@ pub fn gen_c07(rng: &mut Rng, thorough: bool) -> History {
             // range of f32 altogether (an endless loop in the dasher was seen at 2^-91, where a
             // segment's length evaluates to infinity - recorded in DESIGN.md, not explored).
             let k = if rng.chance(1, 2) { rng.range(14, 40) } else { -rng.range(14, 40) };
-            let sc = (2.0f32).powi(k);
-            em.push(si, Op::SetTransform(mk::unmat(&raqote::Transform::scale(sc, sc))));
+            // a third of the episodes are anisotropic (independent exponents for x and y, no
+            // dashes, no arcs: a dash pattern or a circle has no single scale to be divided by)
+            let aniso = rng.chance(1, 3);
+            let j = if aniso { if rng.chance(1, 2) { rng.range(0, 30) } else { -rng.range(0, 30) } } else { k };
+            let (sx, sy) = ((2.0f32).powi(k), (2.0f32).powi(j));
+            em.push(si, Op::SetTransform(mk::unmat(&raqote::Transform::scale(sx, sy))));
             let m = 1 + rng.usize(3);
             for _ in 0..m {
                 let solid = |rng: &mut Rng| SrcSpec { kind: gen_solid(rng), pre: None, user_xf: None };
-                let mut op = match rng.below(5) {
+                let plain = |p: &mut PathSpec| p.segs.retain(|s| !matches!(s, Seg::Arc(..)));
+                // no strokes in the anisotropic episodes: stroke() flattens curves in user space with
+                // a tolerance divided by sqrt|det|, which under a strongly anisotropic transform
+                // is far too fine along the compressed axis - a million segments and half a
+                // gigabyte for one cubic were seen at scale(2^37, 2^-20); recorded in DESIGN.md
+                let mut op = match if aniso { 2 + rng.below(3) } else { rng.below(5) } {
                     0 | 1 => {
                         let path = c07_path(rng, w, h, false);
                         let style = c07_style(rng, &path, false);
                         Op::Stroke { path, src: solid(rng), style, opts: c07_opts(rng) }
                     }
-                    2 => Op::Fill { path: c07_path(rng, w, h, false), src: solid(rng), opts: c07_opts(rng) },
+                    2 => {
+                        let mut path = c07_path(rng, w, h, false);
+                        if aniso {
+                            plain(&mut path);
+                        }
+                        Op::Fill { path, src: solid(rng), opts: c07_opts(rng) }
+                    }
                     3 => {
                         let x = c07_coord(rng, w, false);
                         let y = c07_coord(rng, h, false);
@@ -873,10 +888,16 @@ pub fn gen_c07(rng: &mut Rng, thorough: bool) -> History {
                         if em.shadows[si].clip_depth() >= 4 {
                             continue;
                         }
-                        Op::PushClip(c07_path(rng, w, h, false))
+                        let mut path = c07_path(rng, w, h, false);
+                        if aniso {
+                            plain(&mut path);
+                        }
+                        Op::PushClip(path)
                     }
                 };
-                scale_geometry(&mut op, 1. / sc);
+                // the stroke's width is a user-space length: divided by the larger of the two
+                // scales its device-space extent is at most what the generator chose
+                scale_geometry_xy(&mut op, 1. / sx, 1. / sy, 1. / sx.max(sy));
                 em.push(si, op);
             }
             em.push(si, Op::SetTransform(mat_identity()));
